@@ -39,6 +39,48 @@ fn dg() -> PD { PD(kani::any()) }
 const GRIND: u32 = 3;
 fn opts() -> ProofOptions { ProofOptions::new(2, 2, GRIND, FieldExtension::None, 2, 1) }
 
+
+// ---- the seed elements determine the context: two proof contexts that differ in any parameter the verifier relies on (trace shape,
+// trace length up to 2^31, every proof option) are mapped to different element vectors, so they seed the coin differently.
+// Decided at the 128-bit field, whose elements hold a u32 without reduction (no field multiplication involved).
+fn any_trace_info() -> (TraceInfo, [usize; 4]) {
+    let w: usize = kani::any(); let a: usize = kani::any(); let r: usize = kani::any(); let k: u32 = kani::any();
+    kani::assume(w >= 1 && w <= 255 && a <= 255 && w + a <= 255 && r <= 255 && k >= 3 && k <= 31);
+    kani::assume(a > 0 || r == 0);
+    (TraceInfo::new_multi_segment(w, a, r, 1usize << k, Vec::new()), [w, a, r, k as usize])
+}
+// @ob id=C04 tier=quick req=1 to=900 funcs="TraceInfo::to_elements,ProofOptions::to_elements,TraceInfo::new_multi_segment,ProofOptions::new" bounds="trace widths 1..=255, lengths 2^3..2^31, no metadata; every ProofOptions field over its full range; elements over the 128-bit field" sym="both parameter tuples" desc="to_elements is injective on trace descriptions and on proof options: equal seed elements imply equal parameters"
+#[kani::proof]
+#[kani::unwind(8)]
+#[kani::stub(alloc::fmt::format, nofmt)]
+fn c04_context_elements_injective() {
+    use math::fields::f128::BaseElement as B;
+    let (t1, p1) = any_trace_info();
+    let (t2, p2) = any_trace_info();
+    let e1: Vec<B> = t1.to_elements();
+    let e2: Vec<B> = t2.to_elements();
+    assert!(e1.len() == 2 && e2.len() == 2);
+    if e1[0] == e2[0] && e1[1] == e2[1] { assert!(p1[0] == p2[0] && p1[1] == p2[1] && p1[2] == p2[2] && p1[3] == p2[3]); }
+    // the trace length itself is recoverable from the second element
+    assert!(e1[1] == B::new(1u128 << p1[3]));
+    let q: [usize; 2] = kani::any(); let lb: [u32; 2] = kani::any(); let g: [u32; 2] = kani::any(); let x: [u8; 2] = kani::any();
+    let lf: [u32; 2] = kani::any(); let rl: [u32; 2] = kani::any();
+    let mut o: Vec<Vec<B>> = Vec::new();
+    let mut i = 0;
+    while i < 2 {
+        kani::assume(q[i] >= 1 && q[i] <= 255 && lb[i] >= 1 && lb[i] <= 7 && g[i] <= 32 && x[i] >= 1 && x[i] <= 3 && lf[i] >= 1 && lf[i] <= 4 && rl[i] <= 8);
+        let ext = match x[i] { 1 => FieldExtension::None, 2 => FieldExtension::Quadratic, _ => FieldExtension::Cubic };
+        o.push(ProofOptions::new(q[i], 1usize << lb[i], g[i], ext, 1usize << lf[i], (1usize << rl[i]) - 1).to_elements());
+        i += 1;
+    }
+    assert!(o[0].len() == 4 && o[1].len() == 4);
+    if o[0][0] == o[1][0] && o[0][1] == o[1][1] && o[0][2] == o[1][2] && o[0][3] == o[1][3] {
+        assert!(q[0] == q[1] && lb[0] == lb[1] && g[0] == g[1] && x[0] == x[1] && lf[0] == lf[1] && rl[0] == rl[1]);
+    }
+    kani::cover!(p1[3] == 31 && p2[3] == 16);
+    core::mem::forget((t1, t2, e1, e2, o));
+}
+
 type PC<'a> = ProverChannel<'a, ToyAir, T, PH, SpecCoin>;
 const B_PC: &str = "";
 
